@@ -101,7 +101,12 @@ def lexOp (l : List Char) : Option (List Char × Nat) :=
       | some (c3, n3, _) =>
         if isOperator [c1, c2, c3] then some ([c1, c2, c3], n1 + n2 + n3) else some ([c1, c2], n1 + n2)
 
-inductive QMode | un | sq | dq
+/-- lexical mode inside a word: unquoted, single / double quotes, inside `$( … )` at paren depth `d` (begun
+    in double quotes or not; with its own single / double quotes), inside backquotes -/
+inductive QMode
+  | un | sq | dq
+  | cs (d : Nat) (dq : Bool) | csq (d : Nat) (dq : Bool) | csd (d : Nat) (dq : Bool)
+  | bq (dq : Bool)
   deriving DecidableEq
 
 /-- Length of the word at the head (`WordLexer::word` with `is_token_delimiter_char`): unquoted text,
@@ -116,6 +121,11 @@ def wordLen : QMode → List Char → Nat
     else if isDelim a then 0
     else if a == '\'' then 1 + wordLen .sq t
     else if a == '"' then 1 + wordLen .dq t
+    else if a == '`' then 1 + wordLen (.bq false) t
+    else if a == '$' then
+      match t with
+      | b :: t' => if b == '(' then 2 + wordLen (.cs 1 false) t' else 1 + wordLen .un (b :: t')
+      | [] => 1
     else 1 + wordLen .un t
   | .sq, a :: t => if a == '\'' then 1 + wordLen .un t else 1 + wordLen .sq t
   | .dq, a :: t =>
@@ -124,7 +134,39 @@ def wordLen : QMode → List Char → Nat
       match t with
       | [] => 1
       | _ :: t' => 2 + wordLen .dq t'
+    else if a == '`' then 1 + wordLen (.bq true) t
+    else if a == '$' then
+      match t with
+      | b :: t' => if b == '(' then 2 + wordLen (.cs 1 true) t' else 1 + wordLen .dq (b :: t')
+      | [] => 1
     else 1 + wordLen .dq t
+  -- `$( … )`: the lexer parses a whole program up to the matching `)`; no alias is substituted inside
+  | .cs d q, a :: t =>
+    if a == '\\' then
+      match t with
+      | [] => 1
+      | _ :: t' => 2 + wordLen (.cs d q) t'
+    else if a == '\'' then 1 + wordLen (.csq d q) t
+    else if a == '"' then 1 + wordLen (.csd d q) t
+    else if a == '(' then 1 + wordLen (.cs (d + 1) q) t
+    else if a == ')' then
+      (if d ≤ 1 then 1 + wordLen (if q then .dq else .un) t else 1 + wordLen (.cs (d - 1) q) t)
+    else 1 + wordLen (.cs d q) t
+  | .csq d q, a :: t => if a == '\'' then 1 + wordLen (.cs d q) t else 1 + wordLen (.csq d q) t
+  | .csd d q, a :: t =>
+    if a == '"' then 1 + wordLen (.cs d q) t
+    else if a == '\\' then
+      match t with
+      | [] => 1
+      | _ :: t' => 2 + wordLen (.csd d q) t'
+    else 1 + wordLen (.csd d q) t
+  | .bq q, a :: t =>
+    if a == '`' then 1 + wordLen (if q then .dq else .un) t
+    else if a == '\\' then
+      match t with
+      | [] => 1
+      | _ :: t' => 2 + wordLen (.bq q) t'
+    else 1 + wordLen (.bq q) t
 
 /-- Is the word closed (no unterminated quote)?  An unterminated quote is a lexer error. -/
 def wordClosed : QMode → List Char → Bool
@@ -137,6 +179,11 @@ def wordClosed : QMode → List Char → Bool
     else if isDelim a then true
     else if a == '\'' then wordClosed .sq t
     else if a == '"' then wordClosed .dq t
+    else if a == '`' then wordClosed (.bq false) t
+    else if a == '$' then
+      match t with
+      | b :: t' => if b == '(' then wordClosed (.cs 1 false) t' else wordClosed .un (b :: t')
+      | [] => true
     else wordClosed .un t
   | .sq, a :: t => if a == '\'' then wordClosed .un t else wordClosed .sq t
   | .dq, a :: t =>
@@ -145,7 +192,38 @@ def wordClosed : QMode → List Char → Bool
       match t with
       | [] => false
       | _ :: t' => wordClosed .dq t'
+    else if a == '`' then wordClosed (.bq true) t
+    else if a == '$' then
+      match t with
+      | b :: t' => if b == '(' then wordClosed (.cs 1 true) t' else wordClosed .dq (b :: t')
+      | [] => false
     else wordClosed .dq t
+  | .cs d q, a :: t =>
+    if a == '\\' then
+      match t with
+      | [] => false
+      | _ :: t' => wordClosed (.cs d q) t'
+    else if a == '\'' then wordClosed (.csq d q) t
+    else if a == '"' then wordClosed (.csd d q) t
+    else if a == '(' then wordClosed (.cs (d + 1) q) t
+    else if a == ')' then
+      (if d ≤ 1 then wordClosed (if q then .dq else .un) t else wordClosed (.cs (d - 1) q) t)
+    else wordClosed (.cs d q) t
+  | .csq d q, a :: t => if a == '\'' then wordClosed (.cs d q) t else wordClosed (.csq d q) t
+  | .csd d q, a :: t =>
+    if a == '"' then wordClosed (.cs d q) t
+    else if a == '\\' then
+      match t with
+      | [] => false
+      | _ :: t' => wordClosed (.csd d q) t'
+    else wordClosed (.csd d q) t
+  | .bq q, a :: t =>
+    if a == '`' then wordClosed (if q then .dq else .un) t
+    else if a == '\\' then
+      match t with
+      | [] => false
+      | _ :: t' => wordClosed (.bq q) t'
+    else wordClosed (.bq q) t
 
 /-- Characters that make `$` start an expansion (so that the word is not a literal). -/
 def dollarStarts (c : Char) : Bool :=
@@ -186,6 +264,18 @@ def isAssignAux : Bool → List Char → Bool
       | b :: _ => if dollarStarts b then false else isAssignAux true t
     else isAssignAux true t
 
+/-- `name=` with an empty value: the first unquoted `=` ends the word -/
+def isAssignEmptyAux : Bool → List Char → Bool
+  | _, [] => false
+  | seen, a :: t =>
+    if isDelim a then false
+    else if a == '=' then
+      seen && (match t with
+        | [] => true
+        | b :: _ => isDelim b)
+    else if a == '\\' || a == '\'' || a == '"' || a == '`' || a == '$' then false
+    else isAssignEmptyAux true t
+
 def isAssign (l : List Char) : Bool :=
   match l with
   | a :: _ => if a == '~' then false else isAssignAux false l
@@ -196,6 +286,7 @@ inductive Kind
   | op (s : String)
   | io                       -- IO_NUMBER
   | word (lit : Option String) (assign : Bool)
+  | assignArr                -- `name=` immediately followed by `(`: start of an array assignment
   | bad                      -- unterminated quote
   deriving Repr, DecidableEq
 
@@ -223,6 +314,7 @@ def lexTokC (l : List Char) : Tok :=
         let next := (peel (l.drop n)).map (·.1)
         if !s.isEmpty && s.all Char.isDigit && (next == some '<' || next == some '>') then
           { kind := .io, len := n }
+        else if isAssign l && isAssignEmptyAux false l && next == some '(' then { kind := .assignArr, len := n }
         else { kind := .word (some (String.ofList s)) (isAssign l), len := n }
       | none => { kind := .word none (isAssign l), len := n }
 
@@ -266,6 +358,7 @@ inductive PState
   | args                 -- words present
   | redir (ret : Nat)    -- operand of a redirection (`take_token_auto(&[])`); 0 → pre, 1 → args, 2 → afterComp
   | afterComp            -- after `}` `fi` `done` `esac` `)`: redirections, then a separator
+  | arrOpen | arr        -- `name=(` … `)`: array values are taken with `take_token_auto(&[])`
   | fnClose              -- after `name (`: `take_token_auto(&[])` must give `)`
   | fnBody               -- function body: a compound command, else `take_token_manual(false)`
   | forName | forIn (firstLine : Bool) | forWords | forBody
@@ -312,11 +405,20 @@ def isKeyword (lit : Option String) : Bool :=
   | some s => keywords.contains s
   | none => false
 
-def trans (st : PState) (k : Kind) : Dec :=
+def transCore (st : PState) (k : Kind) : Dec :=
   match st, k with
   | .err, _ => {}
   | _, .bad => {}
   | _, .eof => {}
+  -- array assignment (simple_command.rs `array_values`)
+  | .cmd0, .assignArr => { onTake := .arrOpen }
+  | .pre, .assignArr => { onTake := .arrOpen }
+  | _, .assignArr => {}
+  | .arrOpen, .op s => if s == "(" then { onTake := .arr } else {}
+  | .arrOpen, _ => {}
+  | .arr, .word _ _ => { sub := some false, onSub := .arr, onTake := .arr }
+  | .arr, .op s => if s == "\n" then { onTake := .arr } else if s == ")" then { onTake := .pre } else {}
+  | .arr, .io => {}
   -- start of a command
   | .cmd0, .io => { onTake := .pre }
   | .cmd0, .op s =>
@@ -411,6 +513,13 @@ def trans (st : PState) (k : Kind) : Dec :=
   | .caseSep, .io => {}
   | .casePatN, .word _ _ => { sub := some false, onSub := .casePatN, onTake := .caseSep }
   | .casePatN, _ => {}
+
+/-- Which `take_token_*` comes next.  Outside the two places where an array assignment can start, a word
+    of the shape `name=` followed by `(` is an ordinary (assignment-shaped) word. -/
+def trans (st : PState) (k : Kind) : Dec :=
+  match k with
+  | .assignArr => if st == .cmd0 || st == .pre then transCore st k else transCore st (.word none true)
+  | _ => transCore st k
 
 /-! ### Eligibility and the substitution step -/
 
@@ -546,6 +655,7 @@ def unquote : QMode → List Char → List Char
         else if d == '$' || d == '`' || d == '"' || d == '\\' then d :: unquote .dq t'
         else c :: d :: unquote .dq t'
     else c :: unquote .dq t
+  | _, l => l
 
 /-- `alias name=value`: `AliasSet::replace` -/
 def defineAlias (T : Table) (arg : List Char) : Table :=
